@@ -366,6 +366,7 @@ PROPS["C07"] = {
         # the run mode as run() derives it from the peer commands; suite files given with --test-file
         {"name": "C07RunMode", "pkg": CC, "test": "TestVerifC07RunMode", "kind": "enum"},
         {"name": "C07Files", "pkg": CC, "test": "TestVerifC07Files", "kind": "enum"},
+        {"name": "C07NameCollision", "pkg": CC, "test": "TestVerifC07NameCollision", "kind": "enum"},
     ],
 }
 
